@@ -315,6 +315,9 @@ const vUnion = `
 		IF jsonb_typeof(data) != 'object' OR jsonb_typeof(data->'Kind') != 'string' THEN 
 			RETURN FALSE;
 		END IF;
+		IF NOT (SELECT bool_and(key IN ('Kind', 'Data')) FROM jsonb_each(data)) THEN
+			RETURN FALSE;
+		END IF;
 		CASE 
 			%s
 		END CASE;
